@@ -253,12 +253,14 @@ let parse_hash_op (t : string list) : hop option =
   | ["capq"] -> Some HCapacity | ["iter"] -> Some HIter | ["reopen"] -> Some HReopen
   | _ -> None
 
+let hash_lite = ref false
 let hash_abs hf (s : hst) (uni : z list) : string =
   let mem = List.filter (fun k -> match hcontains hf s k with Ok true -> true | _ -> false) uni in
-  let it = match hiter s with Ok l -> zlist_str (zs_sort l) | _ -> "PANIC" in
+  let it = if !hash_lite then "~" else match hiter s with Ok l -> zlist_str (zs_sort l) | _ -> "PANIC" in
   zlist_str mem ^ ";" ^ it
 
 let run_hash (c : case) =
+  hash_lite := (kv c.header "lite" <> None);
   let vty = kvs c.header "vty" in
   let hf, vt = hash_fn vty in
   let s0, sp0 =
